@@ -26,8 +26,8 @@ if RECHECK:
         checks = sorted(set([prop] + meta.get('detected_by', [])))
 if not checks:
     checks = [prop]
-WT = '/tmp/wt_confirm'
-SB = '/tmp/sb'
+WT = os.environ.get('WT_DIR', '/tmp/wt_confirm')
+SB = os.environ.get('SB_DIR', '/tmp/sb')
 env = dict(os.environ, CARGO_NET_OFFLINE='true')
 
 
